@@ -556,7 +556,28 @@ func scanPartition(db *sql.DB, root string) (map[int64]int, map[int64]string, er
 	if len(m) == 0 {
 		return map[int64]int{}, map[int64]string{}, nil
 	}
-	return scanRows(db, filepath.Join(dir, "*.parquet"))
+	counts, content, err := scanRows(db, filepath.Join(dir, "*.parquet"))
+	if err == nil {
+		return counts, content, nil
+	}
+	// the glob failed (an unreadable final object, or a file vanished under the scan): read file by file and count
+	// only rows that can actually be read; the row-multiset judgement decides what that means
+	counts, content = map[int64]int{}, map[int64]string{}
+	for _, f := range m {
+		c, ct, err := scanRows(db, f)
+		if err != nil {
+			continue
+		}
+		for rid, n := range c {
+			counts[rid] += n
+			if prev, ok := content[rid]; ok && prev != ct[rid] {
+				content[rid] = prev + " <> " + ct[rid]
+			} else {
+				content[rid] = ct[rid]
+			}
+		}
+	}
+	return counts, content, nil
 }
 
 func pairs(m map[int64]int, remap func(int64) int) [][]int {
@@ -681,6 +702,7 @@ func runScenario(sc scenario, dir string, db *sql.DB) (res scenResult) {
 		MemoryLimit: "256MB", Threads: 1, Tiers: []compaction.Tier{tier}, Logger: zerolog.Nop()})
 
 	var scans []scanRec
+	clockBase := time.Now().Truncate(time.Second)
 	for ci, cp := range sc.Cycles {
 		plan := map[string]int{}
 		planned := 0
@@ -693,6 +715,8 @@ func runScenario(sc scenario, dir string, db *sql.DB) (res scenResult) {
 		pb, _ := json.Marshal(plan)
 		os.WriteFile(filepath.Join(obs, "plan.json"), pb, 0o644)
 		os.WriteFile(filepath.Join(obs, "jobseq"), []byte("0"), 0o644)
+		// the controlled clock of this cycle's jobs: one fixed second per cycle (see verifc09.InstallChild)
+		os.WriteFile(filepath.Join(obs, "clock"), []byte(strconv.FormatInt(clockBase.Add(time.Duration(ci)*time.Second).UnixNano(), 10)), 0o644)
 		verifc09.Mark(map[string]interface{}{"ev": "cycle_start", "cycle": ci + 1})
 		// generous deadline: exceeding it is an infrastructure failure, never an (unplanned) kill that gets judged
 		ctx, cancel := context.WithTimeout(context.Background(), 60*time.Minute)
@@ -789,10 +813,11 @@ func runScenario(sc scenario, dir string, db *sql.DB) (res scenResult) {
 			link := e["link"].(string)
 			counts, _, err := scanRows(db, link)
 			if err != nil {
-				return fail("cannot read %s (%s): %v", name, link, err)
+				// a partial / truncated / overwritten-in-flight object holds no row a query could read
+				counts = map[int64]int{}
 			}
 			tr = append(tr, map[string]interface{}{"ev": "put", "sc": sc.ID, "f": name, "vis": strings.HasSuffix(name, ".parquet"),
-				"rows": pairs(counts, remap), "by": e["by"]})
+				"rows": pairs(counts, remap), "by": e["by"], "unreadable": err != nil})
 		case "del":
 			tr = append(tr, map[string]interface{}{"ev": "del", "sc": sc.ID, "f": e["f"], "by": e["by"]})
 		case "cycle_end":
@@ -923,7 +948,7 @@ func judge(sc scenario, rows map[int64]*rowInfo, evs []map[string]interface{}, s
 			name := e["f"].(string)
 			counts, _, err := scanRows(db, e["link"].(string))
 			if err != nil {
-				return verdict{Code: -1, Detail: map[string]interface{}{"error": err.Error()}}
+				counts = map[int64]int{}
 			}
 			files[name] = counts
 			if strings.HasSuffix(name, ".part") {
@@ -956,6 +981,8 @@ func judge(sc scenario, rows map[int64]*rowInfo, evs []map[string]interface{}, s
 					nar, via := narrowed(k, name)
 					delete(files, name)
 					switch {
+					case e["replaced"] == true:
+						sig = "lost-rows:published-file-overwritten-in-place-by-a-later-upload-with-the-same-name"
 					case nar && via:
 						// the rows sat in an earlier compaction output (which carries no arc:tags) when they collapsed
 						sig = narrowSig
